@@ -821,6 +821,9 @@ def _sbml_to_model(
         if f_replace and F_REACTION in f_replace:
             rid = f_replace[F_REACTION](rid)
         cobra_reaction = Reaction(rid)
+        # no default bounds: the document's bounds are assigned one at a time below
+        # and must only be consistent with each other
+        cobra_reaction.bounds = (-float("inf"), float("inf"))
         cobra_reaction.name = reaction.getName().strip()
         cobra_reaction.annotation = _parse_annotations(reaction)
         cobra_reaction.notes = _parse_notes_dict(reaction)
